@@ -39,6 +39,7 @@ type vestEnv struct {
 	derived map[int]bool
 	genesisAcct map[int]bool
 	step   int
+	blockedId int
 }
 
 func (e *vestEnv) addrStr(id int) string {
@@ -407,6 +408,31 @@ func runVestCase(ta *TestApp, seed uint64, idx int, rep *Report, profile string)
 			e.genesisAcct[id] = true
 		}
 	}
+	// existing accounts of other types (delayed / periodic / permanent-locked vesting, with key and sequence):
+	// targets that account-creating messages must never replace
+	var otherIds []int
+	for i := 0; i < rng.Intn(3); i++ {
+		id := newAddr()
+		otherIds = append(otherIds, id)
+		bacc := app.AccountKeeper.NewAccountWithAddress(ctx, e.addrs[id]).(*authtypes.BaseAccount)
+		if rng.Chance(70) {
+			bacc.SetPubKey(valKey.PubKey()) //nolint:errcheck
+			bacc.SetSequence(uint64(1 + rng.Intn(50))) //nolint:errcheck
+		}
+		var acc authtypes.AccountI
+		switch rng.Intn(3) {
+		case 0:
+			acc = vestingtypes.NewDelayedVestingAccount(bacc, sdk.NewCoins(), t0.Unix()+1000000)
+		case 1:
+			acc = vestingtypes.NewPeriodicVestingAccount(bacc, sdk.NewCoins(), t0.Unix(), vestingtypes.Periods{})
+		default:
+			acc = vestingtypes.NewPermanentLockedAccount(bacc, sdk.NewCoins())
+		}
+		app.AccountKeeper.SetAccount(ctx, acc)
+		if rng.Chance(50) {
+			fund(ctx, ta, e.addrs[id], sdk.NewCoins(sdk.NewCoin(denomNames[0], sdk.NewIntFromBigInt(rng.LogUniform(amountMax)))))
+		}
+	}
 	nAbsent := 3 + rng.Intn(4)
 	for i := 0; i < nAbsent; i++ {
 		absentIds = append(absentIds, newAddr())
@@ -416,6 +442,7 @@ func runVestCase(ta *TestApp, seed uint64, idx int, rep *Report, profile string)
 	app.AccountKeeper.GetModuleAccount(ctx, authtypes.FeeCollectorName)
 	e.addrs = append(e.addrs, blockedAddr)
 	blockedId := len(e.addrs) - 1
+	e.blockedId = blockedId
 	for _, a := range e.addrs {
 		e.astr = append(e.astr, a.String())
 	}
@@ -652,7 +679,7 @@ func runVestCase(ta *TestApp, seed uint64, idx int, rep *Report, profile string)
 			var to int
 			switch rng.Intn(12) {
 			case 0:
-				to = pickAddr(baseIds, vestIds)
+				to = pickAddr(baseIds, vestIds, otherIds, otherIds)
 			case 1:
 				to = blockedId
 			case 2:
@@ -698,7 +725,7 @@ func runVestCase(ta *TestApp, seed uint64, idx int, rep *Report, profile string)
 			if ab := absent(); len(ab) > 0 && rng.Chance(80) {
 				to = ab[rng.Intn(len(ab))]
 			} else {
-				to = pickAddr(baseIds, vestIds, []int{blockedId, -1})
+				to = pickAddr(baseIds, vestIds, otherIds, otherIds, []int{blockedId, -1})
 			}
 			coins := sdk.Coins{}
 			for _, d := range e.denoms {
@@ -738,7 +765,7 @@ func runVestCase(ta *TestApp, seed uint64, idx int, rep *Report, profile string)
 			if ab := absent(); len(ab) > 0 && rng.Chance(88) {
 				to = ab[rng.Intn(len(ab))]
 			} else {
-				to = pickAddr(baseIds, vestIds, []int{blockedId, -1})
+				to = pickAddr(baseIds, vestIds, otherIds, otherIds, []int{blockedId, -1})
 			}
 			coins := sdk.Coins{}
 			if from >= 0 {
@@ -789,7 +816,7 @@ func runVestCase(ta *TestApp, seed uint64, idx int, rep *Report, profile string)
 			if ab := absent(); len(ab) > 0 && rng.Chance(88) {
 				to = ab[rng.Intn(len(ab))]
 			} else {
-				to = pickAddr(baseIds, vestIds, []int{blockedId, -1})
+				to = pickAddr(baseIds, vestIds, otherIds, otherIds, []int{blockedId, -1})
 			}
 			op = vestOp{kind: "move", owner: from, to: to,
 				term: fmt.Sprintf("OMove %s %s %s", zI(int64(from)), zI(int64(to)), zList(dn)),
@@ -808,7 +835,7 @@ func runVestCase(ta *TestApp, seed uint64, idx int, rep *Report, profile string)
 			if ab := absent(); len(ab) > 0 && rng.Chance(88) {
 				to = ab[rng.Intn(len(ab))]
 			} else {
-				to = pickAddr(baseIds, vestIds, []int{blockedId, -1})
+				to = pickAddr(baseIds, vestIds, otherIds, otherIds, []int{blockedId, -1})
 			}
 			var ds []int
 			for _, d := range e.denoms {
@@ -1016,6 +1043,31 @@ func (e *vestEnv) predicates(ctx sdk.Context, op *vestOp, pre *vestSnap, res opR
 			}
 			rep.Eval("C09.existing_account_unchanged", same, c, st, fmt.Sprintf("%s changed account %d", op.term, id))
 		}
+	}
+	if !res.ok && op.kind == "send" && res.panic_ == "" {
+		// C08: a request that does not exceed what is still locked in the pool (and is otherwise well-formed: known pool,
+		// absent and unblocked recipient) must succeed
+		if op.owner >= 0 && op.to > 0 && op.to != op.owner && op.to != e.blockedId && pre.hasPools[op.owner] && op.amount.Sign() >= 0 {
+			var pp *vesttypes.VestingPool
+			for _, p := range pre.pools[op.owner].VestingPools {
+				if p.Name == e.poolName(op.name) && op.name != 0 {
+					pp = p
+				}
+			}
+			_, existed := pre.accBytes[op.to]
+			if pp != nil && !existed {
+				lockedAfter := pp.GetCurrentlyLocked().BigInt()
+				if !pre.now.Before(pp.LockEnd) {
+					lockedAfter = bi(0)
+				}
+				if op.amount.Cmp(lockedAfter) <= 0 {
+					rep.Eval("C08.request_within_locked_succeeds", false, c, st, fmt.Sprintf("%s failed although %v <= %v still locked", op.term, op.amount, lockedAfter))
+				}
+			}
+		}
+	}
+	if res.ok && op.kind == "send" {
+		rep.Eval("C08.request_within_locked_succeeds", true, c, st, "")
 	}
 	if !res.ok {
 		return
